@@ -282,6 +282,25 @@ def ensure_coq_built():
                 raise Broken(f"coq-build {f}" + (f":{m.group(1)}" if m else ""), r.stdout[-4000:])
 
 
+def clean_code(code):
+    """Corr18.clean: every st.* instruction directly preceded by push.str [push.computed]"""
+    k, n = 0, len(code)
+    while k < n:
+        if code[k]["op"] != "push.str":
+            return False
+        k += 1
+        if k < n and code[k]["op"] == "push.computed":
+            if k + 1 < n and code[k + 1]["op"] == "st.set":
+                k += 2
+                continue
+            return False
+        if k < n and code[k]["op"].startswith("st."):
+            k += 1
+            continue
+        return False
+    return True
+
+
 def bad_of(outs, ks):
     bad = []
     for k, out in zip(ks, outs):
@@ -380,7 +399,7 @@ def run(res, tier, seed):
                                    got=[show_call(call_tuple(x)) for x in r["run"]["calls"]], code=r["run"]["code"]))
 
     for (key, h), hits in sorted(known_hits.items()):
-        c, detail = hits[0]
+        c, detail = min(hits, key=lambda x: len(x[0]["run"]["src"]))
         res.known(f"key={key} shape={h} input={json.dumps(c['run']['src'], ensure_ascii=False)} mode={c['run']['mode']}: {detail} "
                   f"({len(hits)} cases in this run)")
 
@@ -436,7 +455,8 @@ def run(res, tier, seed):
                                      "each": "st_run (compile_st edits) = Go's callback log (type, name, value, extra, op, text) with the "
                                              "values Go computed for each value text alone; proj (compile_st edits) = projection of "
                                              "Go's compiled code on push.str / push.computed / st.*",
-                                     "code_replay_cases": len(others), "code_replay_disagreements": len(bad2)}
+                                     "code_replay_cases": len(others), "code_replay_disagreements": len(bad2),
+                                     "code_replay_cases_with_strings_inside_values_skipped": sum(1 for r in others if not clean_code(r["code"]))}
         if bad:
             broken = Broken("correspondence Corr18.c18_ok (Model/St.v st_run/compile_st vs parser+VM)",
                             {"first": [dict(replay_of(sel[i]), got=[show_call(call_tuple(x)) for x in sel[i]["run"]["calls"]],
